@@ -45,6 +45,25 @@ Theorem C07_step_other_threads : forall st i j, j <> i ->
 Proof. exact gstep_other_threads. Qed.
 Print Assumptions C07_step_other_threads.
 
+(* requests without an object / destination name take no lock: they are refused (400) before
+   locks.Run, in one atomic step, and leave the store as it is *)
+Theorem C07_nameless_multipart_atomic : forall s b m d cp, um_name m = [] ->
+  lock_key s (RUploadMultipart b m d cp) = None /\ fst (handle s (RUploadMultipart b m d cp)) = s.
+Proof. exact nameless_multipart_atomic. Qed.
+Print Assumptions C07_nameless_multipart_atomic.
+
+Theorem C07_nameless_compose_atomic : forall s b dst bad srcs dm cp x,
+  split (dst ++ s_compose) s_compose = [[]; x] ->
+  lock_key s (RCompose b dst bad srcs dm cp) = None /\ fst (handle s (RCompose b dst bad srcs dm cp)) = s.
+Proof. exact nameless_compose_atomic. Qed.
+Print Assumptions C07_nameless_compose_atomic.
+
+Theorem C07_nameless_copy_atomic : forall s b1 n1 b2 n2 f1 rest b2',
+  split (n1 ++ s_rewrite_b ++ b2 ++ s_o ++ n2) s_rewrite_b = [f1; rest] -> split2 rest s_o = [b2'; []] ->
+  lock_key s (RCopy b1 n1 b2 n2) = None /\ fst (handle s (RCopy b1 n1 b2 n2)) = s.
+Proof. exact nameless_copy_atomic. Qed.
+Print Assumptions C07_nameless_copy_atomic.
+
 (* ---- 2. the final store is the fold of the commit effects, in schedule order ---- *)
 
 Theorem C07_gconc_effects : forall sched st,
@@ -378,6 +397,15 @@ Print Assumptions C07_mem_read_snapshot.
 Example C07_two_uploaders_one_blocked :
   map otag (snd (grun (init_g c07_s1 [[c07_up [2]%N]; [c07_up [3]%N]]) [0; 1; 0; 1; 1]%nat)) = [1; 2; 200; 1; 200].
 Proof. vm_compute. reflexivity. Qed.
+
+(* a multipart upload without an object name is answered 400 in one step (no yield, not blocked)
+   even while an upload of (b, n) is parked; the same upload with a name parks at its yield *)
+Example C07_nameless_multipart_one_step :
+  map otag (snd (grun (init_g c07_s1 [[c07_up [2]%N]; [RUploadMultipart c07_b (mkUpMeta [] [116]%N 0 []) [3]%N c07_cp0]])
+                      [0; 1]%nat)) = [1; 400]
+  /\ map otag (snd (grun (init_g c07_s1 [[c07_up [2]%N]; [RUploadMultipart c07_b (mkUpMeta [109]%N [116]%N 0 []) [3]%N c07_cp0]])
+                      [0; 1]%nat)) = [1; 1].
+Proof. split; vm_compute; reflexivity. Qed.
 
 (* two conditional uploaders: the hypotheses of C07_exactly_one_conditional_writer_wins hold, and
    exactly one answers 200 in either order *)
